@@ -99,8 +99,12 @@ func floatBits[S constraints.Float]() int {
 
 // floatFixSweep: C08 for one instantiation.
 func floatFixSweep[S constraints.Float, D constraints.Integer](w *numWriter, rng *rand.Rand, fn, sty, dty string,
-	conv func(*signal.Buffer[S], *signal.Buffer[D]) int, nrand int) {
+	conv func(*signal.Buffer[S], *signal.Buffer[D]) int, nrand int, exhaustive bool) {
 	w.start(&NEvent{Fam: "floatfix", Fn: fn, STy: sty, DTy: dty, Sd: floatBits[S](), Ds: b2i(isSigned[D]()), Dd: bitsOf[D]()})
+	if exhaustive && floatBits[S]() == 32 && bitsOf[D]() <= 16 {
+		floatFixExhaustive32(w, conv)
+		w.start(&NEvent{Fam: "floatfix", Fn: fn, STy: sty, DTy: dty, Sd: floatBits[S](), Ds: b2i(isSigned[D]()), Dd: bitsOf[D]()})
+	}
 	xs := floatsAs[S](floatValues(rng, nrand))
 	ys := convertSlice(conv, xs)
 	for i := range xs {
@@ -136,6 +140,149 @@ func fixFloatSweep[S constraints.Integer, D constraints.Float](w *numWriter, rng
 	for i := range xs {
 		w.emit(&NEvent{Op: "P", X: numOfInt(xs[i]), G: floatJ(float64(gs[i]))})
 		w.emit(&NEvent{Op: "RT", X: numOfInt(xs[i]), G: floatJ(float64(gs[i])), Z: numOfInt(zs[i])})
+	}
+	if exhaustive16 && sd == 32 && p == 53 { // thorough tier (through float64; float32 cannot hold 32-bit codes and nothing is claimed): the round trip of EVERY 32-bit code, as runs of constant z - x
+		fixFloatRoundTrips32(w, conv, back)
+	}
+}
+
+// fixFloatRoundTrips32 sweeps all 2^32 codes of a 32-bit source through conv and back.
+func fixFloatRoundTrips32[S constraints.Integer, D constraints.Float](w *numWriter, conv func(*signal.Buffer[S], *signal.Buffer[D]) int, back func(*signal.Buffer[D], *signal.Buffer[S]) int) {
+	var lo S
+	if isSigned[S]() {
+		m := int64(-1) << 31
+		lo = S(m)
+	}
+	const chunk = 1 << 18
+	in := make([]S, chunk)
+	have := false
+	var x0, x1 S
+	var d int64
+	var neg bool
+	segs := 0
+	flush := func() {
+		if !have {
+			return
+		}
+		segs++
+		if segs <= w.maxSegs {
+			k := numOfU64(uint64(d))
+			if neg {
+				k[0] = 1
+			}
+			w.emit(&NEvent{Op: "RTSeg", X: numOfInt(x0), X1: numOfInt(x1), K: k})
+		}
+		have = false
+	}
+	for base := uint64(0); base < 1<<32; base += chunk {
+		for i := range in {
+			in[i] = lo + S(base+uint64(i))
+		}
+		zs := convertSlice(back, convertSlice(conv, in))
+		for i, x := range in {
+			oz, ox := ord(zs[i]), ord(x)
+			var dd int64
+			ng := false
+			if oz >= ox {
+				dd = int64(oz - ox)
+			} else {
+				dd, ng = int64(ox-oz), true
+			}
+			if have && (dd != d || ng != neg) {
+				flush()
+			}
+			if !have {
+				x0, d, neg, have = x, dd, ng, true
+			}
+			x1 = x
+		}
+	}
+	flush()
+	if segs > w.maxSegs {
+		w.Capped++
+	}
+}
+
+// floatFixExhaustive32 visits EVERY non-NaN float32 bit pattern in increasing value order: one Clip record
+// (with the smallest and largest output seen) per clipped region, maximal runs of equal output inside (-1,1).
+func floatFixExhaustive32[S constraints.Float, D constraints.Integer](w *numWriter, conv func(*signal.Buffer[S], *signal.Buffer[D]) int) {
+	const chunk = 1 << 20
+	in := make([]S, 0, chunk)
+	// region walker: calls visit(bits) for bits from a to b (inclusive) stepping by dir
+	run := func(a, b uint32, dir int, visit func(f float32, y D)) {
+		cur := int64(a)
+		end := int64(b)
+		for {
+			in = in[:0]
+			bitsAt := make([]uint32, 0, chunk)
+			for len(in) < chunk {
+				in = append(in, S(math.Float32frombits(uint32(cur))))
+				bitsAt = append(bitsAt, uint32(cur))
+				if cur == end {
+					break
+				}
+				cur += int64(dir)
+			}
+			ys := convertSlice(conv, in)
+			for i := range ys {
+				visit(math.Float32frombits(bitsAt[i]), ys[i])
+			}
+			if bitsAt[len(bitsAt)-1] == b {
+				return
+			}
+		}
+	}
+	clip := func(a, b uint32, dir int) {
+		first := true
+		var ymin, ymax D
+		var f0, f1 float32
+		run(a, b, dir, func(f float32, y D) {
+			if first {
+				ymin, ymax, f0, first = y, y, f, false
+			}
+			if y < ymin {
+				ymin = y
+			}
+			if y > ymax {
+				ymax = y
+			}
+			f1 = f
+		})
+		w.emit(&NEvent{Op: "Clip", F: floatJ(float64(f0)), F1: floatJ(float64(f1)), Y: numOfInt(ymin), Z: numOfInt(ymax)})
+	}
+	segs := 0
+	inner := func(a, b uint32, dir int) {
+		have := false
+		var f0, f1 float32
+		var y0 D
+		flush := func() {
+			if have {
+				segs++
+				if segs <= w.maxSegs {
+					w.emit(&NEvent{Op: "Seg", F: floatJ(float64(f0)), F1: floatJ(float64(f1)), Y: numOfInt(y0)})
+				}
+			}
+			have = false
+		}
+		run(a, b, dir, func(f float32, y D) {
+			if have && y != y0 {
+				flush()
+			}
+			if !have {
+				f0, y0, have = f, y, true
+			}
+			f1 = f
+		})
+		flush()
+	}
+	clip(0xFF800000, 0xBF800000, -1)  // -Inf .. -1
+	inner(0xBF7FFFFF, 0x80000001, -1) // (-1, 0)
+	ys := convertSlice(conv, []S{0})
+	w.emit(&NEvent{Op: "P", F: floatJ(0), Y: numOfInt(ys[0])})
+	inner(0x00000001, 0x3F7FFFFF, 1) // (0, 1)
+	clip(0x3F800000, 0x7F800000, 1)  // 1 .. +Inf
+	if segs > w.maxSegs {
+		w.Capped++
 	}
 }
 
